@@ -10,6 +10,7 @@ import shutil
 from . import core, extract, programs, vmtie, coregen
 
 FUEL = 300000
+MAX_STEPS = 6000
 
 
 def drivers():
@@ -31,6 +32,8 @@ def run_core_model(core_drv, proj, workdir):
     with open(tf, "w") as f:
         f.write(coregen.render_tokens(proj["tree"]))
     rc, out, err = core.sh([core_drv, tf, "main.mmm", str(FUEL)], timeout=120)
+    if rc == 124:
+        return None, "timeout"
     if rc != 0:
         return None, "core driver crashed: " + err.decode("utf8", "replace")[-300:]
     txt = out.decode("utf8", "replace")
@@ -106,6 +109,10 @@ def compare_spec(real, m):
         span = bytes.fromhex(res[2]).decode() if len(res) > 2 else ""
         if rk != "assert" or detail != span:
             return "FAIL:error", {"spec": ("assert", span), "real": (rk, detail)}
+    if kind == "unwrap_nil":
+        span = bytes.fromhex(res[2]).decode() if len(res) > 2 else ""
+        if rk != "unwrap_nil" or detail != span:
+            return "FAIL:error", {"spec": ("unwrap_nil", span), "real": (rk, detail)}
     if kind == "overflow":
         # the property demands a failure; which class (error vs Rust panic) is C17's and C05's subject
         return "ok-overflow-" + rk, ""
@@ -137,8 +144,11 @@ def tie_all(ctx, binary, projs, label, want_t1=True):
         if want_t1:
             res["t1"] = compare_code(dump, m["code"])
         res["cert"] = m["certs"]
-        vm = vmtie.run_model(vm_drv, real["dump"], "main.mmm#__module__")
-        res["t2"] = vmtie.compare(proj, real, vm)
+        if len(real["trace"]) > MAX_STEPS:
+            res["t2"] = ("fuel", "run longer than %d instructions: not replayed on the model" % MAX_STEPS)
+        else:
+            vm = vmtie.run_model(vm_drv, real["dump"], "main.mmm#__module__")
+            res["t2"] = vmtie.compare(proj, real, vm)
         res["t3"] = compare_spec(real, m)
         res["status"] = "ran"
         res["steps"] = len(real["trace"])
@@ -147,3 +157,67 @@ def tie_all(ctx, binary, projs, label, want_t1=True):
         return res
 
     return programs.pmap(one, projs)
+
+
+def slim(proj):
+    return {k: v for k, v in proj.items() if k != "tree"}
+
+
+def report_results(ctx, binary, results, label, shrink_budget=40, max_shrinks=1):
+    """turn tie results into reports + statistics (shared by C01, C07, C12, C15, C17)"""
+    st = {"programs": 0, "rejected": 0, "t1_equal": 0, "t2_agree": 0, "t3_ok": 0, "steps": 0, "skipped": 0, "model_crash": 0}
+    shrinks = 0
+    kinds = {}
+    for r in results:
+        proj = r["proj"]
+        if r["status"] == "rejected":
+            st["rejected"] += 1
+            continue
+        if r["status"] == "model-crash":
+            st["model_crash"] += 1
+            continue
+        st["programs"] += 1
+        st["steps"] += r.get("steps", 0)
+        if r["t1"] is None:
+            st["t1_equal"] += 1
+        else:
+            ctx.report("correspondence:codegen", "code-generator model and compiler emit different code for %s: %s" % (proj["name"], r["t1"][:300]),
+                       {"project": slim(proj), "difference": r["t1"], "correspondence": "T1 Compile/Compile.v vs emitted bytecode"}, found_input=False)
+        t2 = r["t2"]
+        if t2[0] == "agree":
+            st["t2_agree"] += 1
+        elif t2[0].startswith("DISAGREE"):
+            ctx.report("correspondence:vm-model:" + t2[0].split(":", 1)[1], "VM model and interpreter disagree (%s) on %s: %s" % (t2[0], proj["name"], str(t2[1])[:300]),
+                       {"project": slim(proj), "status": t2[0], "detail": t2[1], "correspondence": "T2 Vm/Model.v vs interpreter"}, found_input=False)
+        t3 = r["t3"]
+        k = t3[0]
+        kinds[k] = kinds.get(k, 0) + 1
+        if k.startswith("ok"):
+            st["t3_ok"] += 1
+        elif k == "skip":
+            st["skipped"] += 1
+        elif k.startswith("FAIL"):
+            tree = proj.get("tree")
+            small = tree
+            if tree is not None and shrinks < max_shrinks:
+                shrinks += 1
+
+                def fails(t, k=k):
+                    t = coregen.assign_spans([s[:2] if s[0] == "assert" else s for s in t], "main.ms")
+                    p = {"name": "shrunk", "files": {"main.ms": coregen.render_ms(t)}, "entry": "main.ms", "tree": t}
+                    rr = tie_all(ctx, binary, [p], label)[0]
+                    return rr["status"] == "ran" and rr["t3"][0] == k
+                try:
+                    small = coregen.shrink(tree, fails, budget=shrink_budget)
+                except Exception:
+                    small = tree
+            src = coregen.render_ms(small) if small is not None else proj["files"]["main.ms"]
+            ctx.report("semantics:" + k.split(":", 1)[1],
+                       "running the program differs from the language semantics (%s): %s\n%s" % (k, str(t3[1])[:300], src[:700]),
+                       {"program": src, "original": proj["files"]["main.ms"], "difference": t3[1],
+                        "how": "mscript run main.ms -q  versus the reference semantics Lang/Eval.v"})
+        if r["cert"] is not None and not all(r["cert"]):
+            ctx.report("certificate-rejected", "the verified structural checker rejects the model-compiled code of %s" % proj["name"],
+                       {"project": slim(proj)}, found_input=False)
+    st["t3_kinds"] = kinds
+    return st
